@@ -28,43 +28,7 @@ theorem flatten_chunks {α : Type} (r : Nat) (hr : r ≠ 0) (l : List α) : (chu
     · simp [h]
   | case2 l h ih => simp [ih]
 
-theorem ceilDiv_zero (r : Nat) (hr : r ≠ 0) : ceilDiv 0 r = 0 := by
-  unfold ceilDiv
-  rw [Nat.div_eq_zero_iff]; right; omega
-
-theorem ceilDiv_step (k r : Nat) (hr : r ≠ 0) (hk : k ≠ 0) : ceilDiv k r = ceilDiv (k - r) r + 1 := by
-  unfold ceilDiv
-  by_cases h : r ≤ k
-  · have : k + r - 1 = (k - r + r - 1) + r := by omega
-    rw [this, Nat.add_div_right _ (by omega)]
-  · have h1 : k - r = 0 := by omega
-    rw [h1]
-    have h2 : (0 + r - 1) / r = 0 := by
-      rw [Nat.div_eq_zero_iff]; right; omega
-    rw [h2]
-    have h3 : k + r - 1 = (k - 1) + r := by omega
-    rw [h3, Nat.add_div_right _ (by omega)]
-    have h4 : (k - 1) / r = 0 := by
-      rw [Nat.div_eq_zero_iff]; right; omega
-    rw [h4]
-
-theorem length_chunks {α : Type} (r : Nat) (hr : r ≠ 0) (l : List α) :
-    (chunks r l).length = ceilDiv l.length r := by
-  fun_induction chunks r l with
-  | case1 l h =>
-    rcases h with h | h
-    · exact absurd h hr
-    · simp [h, ceilDiv_zero r hr]
-  | case2 l h ih =>
-    have hl : l.length ≠ 0 := by
-      intro h0; exact h (Or.inr (List.length_eq_zero_iff.1 h0))
-    simp only [List.length_cons, ih, List.length_drop]
-    rw [ceilDiv_step l.length r hr hl]
-
 /-! ### finite latency -/
-
-/-- total number of coordinates in a list of lists -/
-def total (ls : List (List Int)) : Nat := (ls.map List.length).sum
 
 theorem total_eq_flatten (ls : List (List Int)) : total ls = ls.flatten.length := by
   simp [total, List.length_flatten]
